@@ -647,15 +647,16 @@ type backend struct {
 
 // queryCfg maps the name of an SQL query configuration to the configuration: the
 // default one (batches of 250 ids, pages of 100 rows: with two payments never more
-// than one page / batch), "tiny" (every page and every IN-batch holds one item, so
-// two payments / attempts / hops already span several pages and batches) and "two"
-// (a page is exactly full with two payments).
+// than one page / batch), "tiny" (every page and every IN-batch holds one item: two
+// payments span two pages, the attempts / hops of one payment several batches) and
+// "batch1" (pages of two, IN-batches of one: a page is exactly full with two payments
+// and their ids are split over two batches of one shared-data load).
 func queryCfg(name string) *sqldb.QueryConfig {
 	switch name {
 	case "tiny":
 		return &sqldb.QueryConfig{MaxBatchSize: 1, MaxPageSize: 1}
-	case "two":
-		return &sqldb.QueryConfig{MaxBatchSize: 2, MaxPageSize: 2}
+	case "batch1":
+		return &sqldb.QueryConfig{MaxBatchSize: 1, MaxPageSize: 2}
 	}
 	return sqldb.DefaultSQLiteConfig()
 }
